@@ -220,6 +220,12 @@ func genCtrlFlow() (string, error) {
 	if err := emit("ctrl/qryn/maintenance/maintain.go", "upgradeDB", "upgradeDB", "`upgradeDB` (maintain.go): the arguments `Update` is called with"); err != nil {
 		return "", err
 	}
+	if err := emit("ctrl/qryn/maintenance/rotate.go", "getSetting", "getSetting", "`getSetting` (rotate.go): which table the record is read from"); err != nil {
+		return "", err
+	}
+	if err := emit("ctrl/qryn/maintenance/rotate.go", "putSetting", "putSetting", "`putSetting` (rotate.go): which table the record is written to"); err != nil {
+		return "", err
+	}
 	// the project table and the address list of the connection
 	mb, err := os.ReadFile(filepath.Join(repo, "ctrl/main.go"))
 	if err != nil {
